@@ -97,11 +97,13 @@ def admissible(eos: E.EOS, Tn: float) -> str | None:
     return None
 
 
-def make_hydro(eos: E.EOS, Tn: float, tol: dict, ranges=None):
+def make_hydro(eos: E.EOS, Tn: float, tol: dict, ranges=None, window=None):
+    """window = (tmin, tmax) of the hydrodynamic temperature window in units of Tn (default 0.01, 10 as in the configuration file)."""
     import WallGo
 
     th = eos.thermo(Tn, ranges)
-    return WallGo.Hydrodynamics(th, TMAX, TMIN, tol["rtol"], tol["atol"]), th
+    tmin, tmax = window if window else (TMIN, TMAX)
+    return WallGo.Hydrodynamics(th, tmax, tmin, tol["rtol"], tol["atol"]), th
 
 
 def velocity_lattice(hyd, eos: E.EOS, Tn: float, n_extra: int = 0) -> list[tuple[str, float]]:
